@@ -3,7 +3,6 @@ package oidc
 import (
 	"context"
 	"fmt"
-	"reflect"
 
 	"github.com/coreos/go-oidc/v3/oidc"
 )
@@ -68,9 +67,14 @@ func (v *idTokenVerifier) verifyAudience(token *oidc.IDToken, claims map[string]
 			// as per spec `aud` can be either a string or a list of strings
 			switch audienceClaimValueType := audienceClaimValue.(type) {
 			case []interface{}:
-				token.Audience = v.interfaceSliceToString(audienceClaimValue)
-			case interface{}:
-				token.Audience = []string{audienceClaimValue.(string)}
+				audience, ok := v.interfaceSliceToString(audienceClaimValueType)
+				if !ok {
+					return false, fmt.Errorf("audience claim %s holds a list with unsupported entries",
+						audienceClaim)
+				}
+				token.Audience = audience
+			case string:
+				token.Audience = []string{audienceClaimValueType}
 			default:
 				return false, fmt.Errorf("audience claim %s holds unsupported type %T",
 					audienceClaim, audienceClaimValueType)
@@ -96,14 +100,14 @@ func (v *idTokenVerifier) isValidAudience(claim string, audience []string, allow
 		claim, audience, allowedAudiences)
 }
 
-func (v *idTokenVerifier) interfaceSliceToString(slice interface{}) []string {
-	s := reflect.ValueOf(slice)
-	if s.Kind() != reflect.Slice {
-		panic(fmt.Sprintf("given a non-slice type %s", s.Kind()))
-	}
+func (v *idTokenVerifier) interfaceSliceToString(slice []interface{}) ([]string, bool) {
 	var strings []string
-	for i := 0; i < s.Len(); i++ {
-		strings = append(strings, s.Index(i).Interface().(string))
+	for _, entry := range slice {
+		str, ok := entry.(string)
+		if !ok {
+			return nil, false
+		}
+		strings = append(strings, str)
 	}
-	return strings
+	return strings, true
 }
